@@ -93,3 +93,17 @@ Proof.
     all: try (exfalso; lia).
     all: qcnz.
 Qed.
+
+(* hypotheses of the scaling theorem (C17) are satisfiable: ex_C2 with Robin conditions on every side *)
+From PFV Require Import Boundary Solver ScalingThy ScalingSolveThy.
+Definition ex_bc : BCs QcOps :=
+  mkBCs QcOps (fun a hi _ => if hi then qc 1 1 else qc (-1) 1) (fun _ _ _ => qc 2 1) (fun _ _ c => qc (Z.of_nat (fst (fst c))) 3) (fun _ => false).
+Example ex_C2_fac_ok : forall c, interior QcOps ex_C2 c = true -> fac_ok QcOps ex_C2 c.
+Proof. intros c _. split; intros H; discriminate H. Qed.
+Example ex_C2_bc_ok : bc_ok QcOps ex_C2 ex_bc.
+Proof.
+  constructor.
+  - intros a Ha. destruct a; try discriminate Ha; split; qcnz.
+  - intros a hi g _. split; intros H; discriminate H.
+  - qcnz.
+Qed.
